@@ -63,14 +63,17 @@ import (
 // WsPlan is one run of the websocket scenario (one child process).
 type WsPlan struct {
 	Seed    int64  `json:"seed"`
-	Mode    string `json:"mode"`    // "directed": every round is the steered overlap | "free": seeded random clients
+	Mode    string `json:"mode"`    // "directed": every round is the steered overlap | "free": seeded random clients | "calm": small requests one after the other, few events (no overlap sought: for the trace judge)
 	Order   string `json:"order"`   // directed: "reader-first" (answer in flight, then an event) | "sub-first" (notification in flight, then a request)
 	Conns   int    `json:"conns"`   // concurrent connections
 	Rounds  int    `json:"rounds"`  // operations per connection
 	RespKiB int    `json:"respKiB"` // size of a large answer of the fake rest-server
 	StallMs int    `json:"stallMs"` // how long a client stops reading while an answer is in flight
 	SockBuf int    `json:"sockBuf"` // SO_SNDBUF of accepted / SO_RCVBUF of dialled sockets (0: system default)
-	Out     string `json:"out"`
+	// SelfTest "wrong-answer": the fake rest-server answers the second large request with another request's result
+	// (binding self-test: the clients must report it)
+	SelfTest string `json:"selfTest"`
+	Out      string `json:"out"`
 }
 
 // WsConnResult is what one client saw.
@@ -100,6 +103,7 @@ type WsResult struct {
 	Recovered []string       `json:"recovered"` // panics of the server's handler goroutine (readLoop) that net/http recovered
 	Leftover  []string       `json:"leftover"`  // server goroutines not at rest 3 s after the last client went away
 	Parked    int            `json:"parked"`    // notifier goroutines parked for ever in their select (leak; evidence only)
+	MuxWaits  int            `json:"muxWaits"`  // samples (every 4 ms) in which one writer waited for wsConn.mux while the other sat in its network write
 	Events    map[string]int `json:"events"`    // events injected per kind
 	WallMs    int64          `json:"wallMs"`
 }
@@ -209,8 +213,13 @@ type wsNode struct {
 	// event source
 	seq      uint64
 	pendIdx  sync.Map // tx hash -> emission number
+	accepted sync.Map // client address -> *watchedConn
 	boost    int32
 	injected [3]int64
+	muxWaits int64
+	gap      time.Duration
+	blobs    int64
+	selfTest string
 	stop     chan struct{}
 	done     chan struct{}
 }
@@ -232,20 +241,51 @@ func (l *lockedBuf) String() string {
 	return l.b.String()
 }
 
-// bufListener sets the send buffer of every accepted connection (environment: a client behind a thin pipe).
+// bufListener sets the send buffer of every accepted connection (environment: a client behind a thin pipe) and wraps
+// it so that the harness sees, from outside the server, since when a network write on it has not returned.
 type bufListener struct {
 	net.Listener
-	snd int
+	snd  int
+	node *wsNode
 }
 
 func (b bufListener) Accept() (net.Conn, error) {
 	c, err := b.Listener.Accept()
-	if err == nil && b.snd > 0 {
-		if tc, ok := c.(*net.TCPConn); ok {
-			_ = tc.SetWriteBuffer(b.snd)
-		}
+	if err != nil {
+		return c, err
 	}
-	return c, err
+	if tc, ok := c.(*net.TCPConn); ok && b.snd > 0 {
+		_ = tc.SetWriteBuffer(b.snd)
+	}
+	w := &watchedConn{Conn: c}
+	b.node.accepted.Store(c.RemoteAddr().String(), w)
+	return w, nil
+}
+
+type watchedConn struct {
+	net.Conn
+	since int64 // unix nanoseconds at which the Write in progress was entered (0: none)
+}
+
+func (w *watchedConn) Write(p []byte) (int, error) {
+	atomic.StoreInt64(&w.since, time.Now().UnixNano())
+	n, err := w.Conn.Write(p)
+	atomic.StoreInt64(&w.since, 0)
+	return n, err
+}
+
+// writeBlockedFor: how long the network write in progress on the server's side of the connection of client address
+// addr has been blocked (0: no write in progress).
+func (n *wsNode) writeBlockedFor(addr string) time.Duration {
+	v, ok := n.accepted.Load(addr)
+	if !ok {
+		return 0
+	}
+	t := atomic.LoadInt64(&v.(*watchedConn).since)
+	if t == 0 {
+		return 0
+	}
+	return time.Duration(time.Now().UnixNano() - t)
 }
 
 // blob is the deterministic large result of request id: "0x" + the id's 8 hex digits repeated.
@@ -253,7 +293,7 @@ func blob(id int64, kib int) string {
 	return "0x" + strings.Repeat(fmt.Sprintf("%08x", uint32(id)), kib*128)
 }
 
-func restAnswer(req map[string]interface{}) map[string]interface{} {
+func (n *wsNode) restAnswer(req map[string]interface{}) map[string]interface{} {
 	res := map[string]interface{}{"jsonrpc": "2.0", "id": req["id"]}
 	method, _ := req["method"].(string)
 	switch method {
@@ -265,6 +305,9 @@ func restAnswer(req map[string]interface{}) map[string]interface{} {
 			}
 		}
 		id, _ := req["id"].(float64)
+		if atomic.AddInt64(&n.blobs, 1) == 2 && n.selfTest == "wrong-answer" {
+			id++
+		}
 		res["result"] = blob(int64(id), kib)
 	default:
 		res["result"] = "ok:" + method
@@ -273,7 +316,10 @@ func restAnswer(req map[string]interface{}) map[string]interface{} {
 }
 
 func startWsNode(p *WsPlan, rec *wsRec) (*wsNode, error) {
-	n := &wsNode{rec: rec, stop: make(chan struct{}), done: make(chan struct{})}
+	n := &wsNode{rec: rec, selfTest: p.SelfTest, stop: make(chan struct{}), done: make(chan struct{})}
+	if p.Mode == "calm" {
+		n.gap = 4 * time.Millisecond
+	}
 	// loopback CometBFT websocket endpoint + real started WSClient (rig.go), WITHOUT an EventSystem of the harness:
 	// the websocket server creates its own and must be the only consumer of ResponsesCh
 	ws, srv, err := startLoopbackComet()
@@ -302,7 +348,7 @@ func startWsNode(p *WsPlan, rec *wsRec) (*wsNode, error) {
 			}
 			out := make([]interface{}, 0, len(reqs))
 			for _, r := range reqs {
-				out = append(out, restAnswer(r))
+				out = append(out, n.restAnswer(r))
 			}
 			_ = json.NewEncoder(w).Encode(out)
 			return
@@ -312,7 +358,7 @@ func startWsNode(p *WsPlan, rec *wsRec) (*wsNode, error) {
 			http.Error(w, "bad request", 400)
 			return
 		}
-		_ = json.NewEncoder(w).Encode(restAnswer(req))
+		_ = json.NewEncoder(w).Encode(n.restAnswer(req))
 	})}
 	go func() { _ = n.restSrv.Serve(rl) }()
 	_, restPort, _ := net.SplitHostPort(rl.Addr().String())
@@ -334,9 +380,41 @@ func startWsNode(p *WsPlan, rec *wsRec) (*wsNode, error) {
 		return nil, fmt.Errorf("the websocket server is not an http.Handler any more (%T): adapt the harness", server)
 	}
 	n.wsSrv = &http.Server{Handler: h, ErrorLog: stdlog.New(&n.recovered, "", 0)}
-	go func() { _ = n.wsSrv.Serve(bufListener{wl, p.SockBuf}) }()
+	go func() { _ = n.wsSrv.Serve(bufListener{wl, p.SockBuf, n}) }()
 	go n.source(p.Seed)
+	go n.sampler()
 	return n, nil
+}
+
+// sampler counts how often the window the specification is about was open on the real server: a notifier goroutine
+// waiting for wsConn.mux while the read loop sits in the network write of an answer, or the read loop waiting while a
+// notifier sits in its write (vacuity evidence).
+func (n *wsNode) sampler() {
+	for {
+		select {
+		case <-n.stop:
+			return
+		case <-time.After(4 * time.Millisecond):
+		}
+		var inWrite, onMux [2]bool // [read loop, notifier]
+		for _, g := range serverGoroutines() {
+			if !strings.Contains(g.where, "wsConn).WriteJSON") {
+				continue
+			}
+			k := 0
+			if g.role == "notifier" {
+				k = 1
+			}
+			if g.state == "IO wait" {
+				inWrite[k] = true
+			} else if strings.HasPrefix(g.state, "sync.Mutex") || g.state == "semacquire" {
+				onMux[k] = true
+			}
+		}
+		if (inWrite[0] && onMux[1]) || (inWrite[1] && onMux[0]) {
+			atomic.AddInt64(&n.muxWaits, 1)
+		}
+	}
 }
 
 func isJSONArray(b []byte) bool {
@@ -445,7 +523,7 @@ func (n *wsNode) source(seed int64) {
 		if atomic.LoadInt32(&n.boost) > 0 {
 			runtime.Gosched()
 		} else {
-			time.Sleep(time.Duration(300+rng.Intn(1200)) * time.Microsecond)
+			time.Sleep(n.gap + time.Duration(300+rng.Intn(1200))*time.Microsecond)
 		}
 	}
 }
@@ -514,20 +592,6 @@ func atRest(g srvGor) bool {
 	return g.role == "notifier" && (g.state == "select" || g.state == "chan receive") && strings.Contains(g.where, "pubSubAPI).subscribe")
 }
 
-// waitNotifierInWrite waits until some notifier goroutine sits in a network write (its client does not read).
-func waitNotifierInWrite(d time.Duration) bool {
-	end := time.Now().Add(d)
-	for time.Now().Before(end) {
-		for _, g := range serverGoroutines() {
-			if g.role == "notifier" && g.state == "IO wait" {
-				return true
-			}
-		}
-		time.Sleep(3 * time.Millisecond)
-	}
-	return false
-}
-
 // ------------------------------------------------------------------------------------------------ clients
 
 type wsSub struct {
@@ -538,18 +602,117 @@ type wsSub struct {
 	active bool
 }
 
+// wsClient: a pump goroutine reads the socket (and is the one that stalls / reads slowly / pauses), the script
+// goroutine sends and checks what the pump hands over.
 type wsClient struct {
 	node    *wsNode
 	plan    *WsPlan
 	res     *WsConnResult
 	rng     *rand.Rand
 	conn    *websocket.Conn
+	in      chan []byte // complete messages; closed when the pump ends
 	nextID  int64
 	want    map[int64]string // request id -> expected answer ("blob:<kib>" | "small:<method>" | "sub:<kind>" | "unsub")
 	wantErr int              // error answers (id null) still expected
 	subs    []*wsSub
 	pending [][]byte // notifications of subscriptions whose id is not known yet
 	dead    bool
+	// orders to the pump
+	stallNs   int64 // stop reading for that long after the first bytes of the next answer
+	slow      int32 // read the rest of a stalled answer in small pieces
+	paused    int32 // do not read at all
+	pausedAck int32 // the pump saw the order and reads nothing until it is lifted
+	stopAtAns int32 // end the pump at the first bytes of the next answer (the script then closes in the middle of it)
+	overlaps  int32
+	frameErr  atomic.Value // string: frame-level error that is not a plain connection loss
+	atAnswer  chan struct{}
+}
+
+func plainLoss(err error) bool {
+	if err == nil {
+		return true
+	}
+	if websocket.IsCloseError(err, 1000, 1001, 1005, 1006) {
+		return true
+	}
+	s := err.Error()
+	for _, k := range []string{"EOF", "closed", "reset", "broken pipe"} {
+		if strings.Contains(s, k) {
+			return true
+		}
+	}
+	return false
+}
+
+func (c *wsClient) pump() {
+	defer close(c.in)
+	for {
+		for atomic.LoadInt32(&c.paused) > 0 {
+			atomic.StoreInt32(&c.pausedAck, 1)
+			time.Sleep(500 * time.Microsecond)
+		}
+		atomic.StoreInt32(&c.pausedAck, 0)
+		_, r, err := c.conn.NextReader()
+		if err != nil {
+			if !plainLoss(err) {
+				c.frameErr.Store("frame level: " + err.Error())
+			}
+			return
+		}
+		first := make([]byte, 96)
+		k, err := io.ReadFull(r, first)
+		first = first[:k]
+		if err == io.EOF || err == io.ErrUnexpectedEOF {
+			c.in <- first
+			continue
+		}
+		if err != nil {
+			if !plainLoss(err) {
+				c.frameErr.Store("frame level (inside a message): " + err.Error())
+			}
+			return
+		}
+		isAnswer := !bytes.Contains(first, []byte(`"method"`))
+		slow := false
+		if isAnswer {
+			if atomic.LoadInt32(&c.stopAtAns) > 0 {
+				close(c.atAnswer)
+				return
+			}
+			if d := atomic.SwapInt64(&c.stallNs, 0); d > 0 {
+				atomic.AddInt32(&c.overlaps, 1)
+				time.Sleep(time.Duration(d)) // the answer is in flight: the server sits inside its write
+				slow = atomic.LoadInt32(&c.slow) > 0
+			}
+		}
+		var bb bytes.Buffer
+		bb.Write(first)
+		if slow {
+			chunk := make([]byte, 16<<10)
+			for i := 0; ; i++ {
+				m, e := r.Read(chunk)
+				bb.Write(chunk[:m])
+				if e != nil {
+					if e != io.EOF {
+						err = e
+					}
+					break
+				}
+				if i%8 == 0 {
+					time.Sleep(200 * time.Microsecond)
+				}
+			}
+		} else {
+			_, err = io.Copy(&bb, r)
+		}
+		if err != nil {
+			if !plainLoss(err) {
+				c.frameErr.Store("frame level (inside a message): " + err.Error())
+			}
+			return
+		}
+		c.in <- bb.Bytes()
+	}
 }
 
 func (c *wsClient) corrupt(format string, a ...interface{}) {
@@ -568,6 +731,9 @@ func (c *wsClient) send(v interface{}) bool {
 }
 
 func (c *wsClient) sendRaw(bz []byte) bool {
+	if c.dead {
+		return false
+	}
 	_ = c.conn.SetWriteDeadline(time.Now().Add(10 * time.Second))
 	if err := c.conn.WriteMessage(websocket.TextMessage, bz); err != nil {
 		c.dead = true
@@ -576,61 +742,20 @@ func (c *wsClient) sendRaw(bz []byte) bool {
 	return true
 }
 
-// readMsg reads one complete message. stall > 0: when the message turns out to be an answer (not a notification) the
-// client stops reading for that long after the first bytes (the answer is in flight: the server sits inside its write),
-// then reads the rest in small pieces. Returns nil on timeout / connection error.
-func (c *wsClient) readMsg(wait time.Duration, stall time.Duration, slow bool) []byte {
-	_ = c.conn.SetReadDeadline(time.Now().Add(wait))
-	_, r, err := c.conn.NextReader()
-	if err != nil {
-		c.dead = true
-		if ne, ok := err.(net.Error); !(ok && ne.Timeout()) && !websocket.IsCloseError(err, 1000, 1001, 1005, 1006) && !strings.Contains(err.Error(), "EOF") &&
-			!strings.Contains(err.Error(), "closed") && !strings.Contains(err.Error(), "reset") {
-			c.corrupt("frame level: %v", err)
+// next hands over the next complete message, nil after d or when the connection is gone.
+func (c *wsClient) next(d time.Duration) []byte {
+	t := time.NewTimer(d)
+	defer t.Stop()
+	select {
+	case m, ok := <-c.in:
+		if !ok {
+			c.dead = true
+			return nil
 		}
+		return m
+	case <-t.C:
 		return nil
 	}
-	first := make([]byte, 96)
-	k, err := io.ReadFull(r, first)
-	first = first[:k]
-	var rest []byte
-	if err == nil {
-		if stall > 0 && !bytes.Contains(first, []byte(`"method"`)) {
-			c.res.Overlaps++
-			time.Sleep(stall)
-		}
-		_ = c.conn.SetReadDeadline(time.Now().Add(wait + 20*time.Second))
-		if slow {
-			var bb bytes.Buffer
-			chunk := make([]byte, 16<<10)
-			for i := 0; ; i++ {
-				m, e := r.Read(chunk)
-				bb.Write(chunk[:m])
-				if e != nil {
-					if e != io.EOF {
-						err = e
-					}
-					break
-				}
-				if i%8 == 0 {
-					time.Sleep(200 * time.Microsecond)
-				}
-			}
-			rest = bb.Bytes()
-		} else {
-			rest, err = io.ReadAll(r)
-		}
-	} else if err == io.EOF || err == io.ErrUnexpectedEOF {
-		err = nil
-	}
-	if err != nil {
-		c.dead = true
-		if !strings.Contains(err.Error(), "EOF") && !strings.Contains(err.Error(), "closed") && !strings.Contains(err.Error(), "reset") && !strings.Contains(err.Error(), "timeout") {
-			c.corrupt("frame level (inside a message): %v", err)
-		}
-		return nil
-	}
-	return append(first, rest...)
 }
 
 // handle checks one complete message against what this client may receive.
@@ -657,6 +782,11 @@ func head(b []byte) string {
 	return string(b)
 }
 
+type wsNotif struct {
+	Subscription string          `json:"subscription"`
+	Result       json.RawMessage `json:"result"`
+}
+
 func (c *wsClient) handleOne(msg []byte, inBatch bool) {
 	var m struct {
 		Jsonrpc string           `json:"jsonrpc"`
@@ -664,10 +794,7 @@ func (c *wsClient) handleOne(msg []byte, inBatch bool) {
 		Method  string           `json:"method"`
 		Result  json.RawMessage  `json:"result"`
 		Error   json.RawMessage  `json:"error"`
-		Params  *struct {
-			Subscription string          `json:"subscription"`
-			Result       json.RawMessage `json:"result"`
-		} `json:"params"`
+		Params  *wsNotif         `json:"params"`
 	}
 	dec := json.NewDecoder(bytes.NewReader(msg))
 	if err := dec.Decode(&m); err != nil {
@@ -735,15 +862,11 @@ func (c *wsClient) handleOne(msg []byte, inBatch bool) {
 			c.corrupt("answer %d to eth_subscribe carries no subscription id: %s", id, head(msg))
 			return
 		}
-		sub := &wsSub{kind: exp[4:], id: s, active: true}
-		c.subs = append(c.subs, sub)
+		c.subs = append(c.subs, &wsSub{kind: exp[4:], id: s, active: true})
 		keep := c.pending[:0]
 		for _, p := range c.pending { // notifications that overtook the answer carrying their id
 			var pm struct {
-				Params struct {
-					Subscription string          `json:"subscription"`
-					Result       json.RawMessage `json:"result"`
-				} `json:"params"`
+				Params wsNotif `json:"params"`
 			}
 			_ = json.Unmarshal(p, &pm)
 			if pm.Params.Subscription == s {
@@ -817,59 +940,35 @@ func (c *wsClient) notification(id string, result json.RawMessage, raw []byte) {
 	sub.n++
 }
 
-// await reads until every expected answer arrived (bounded), stalling inside the first answer when asked to.
-func (c *wsClient) await(what string, stall time.Duration, slow bool) {
+// await reads until every expected answer arrived (bounded wait).
+func (c *wsClient) await(what string) {
 	end := time.Now().Add(12 * time.Second)
-	for !c.dead && (len(c.want) > 0 || c.wantErr > 0) {
-		left := time.Until(end)
-		if left <= 0 {
-			break
+	me := "panic serving " + c.conn.LocalAddr().String()
+	for !c.dead && (len(c.want) > 0 || c.wantErr > 0) && time.Now().Before(end) {
+		if msg := c.next(200 * time.Millisecond); msg != nil {
+			c.handle(msg)
+		} else if strings.Contains(c.node.recovered.String(), me) && time.Until(end) > time.Second {
+			end = time.Now().Add(time.Second) // the read loop of this connection is gone: nobody will answer
 		}
-		msg := c.readMsg(left, stall, slow)
-		if msg == nil {
-			break
-		}
-		if !bytes.Contains(msg[:min(len(msg), 96)], []byte(`"method"`)) {
-			stall = 0
-		}
-		c.handle(msg)
 	}
-	if !c.dead && (len(c.want) > 0 || c.wantErr > 0) {
-		c.res.Missing = append(c.res.Missing, fmt.Sprintf("%s: %d request(s) unanswered after 12 s on an open connection", what, len(c.want)+c.wantErr))
+	if len(c.want) == 0 && c.wantErr == 0 {
+		return
+	}
+	if !c.dead {
+		c.res.Missing = append(c.res.Missing, fmt.Sprintf("%s: %d request(s) unanswered on an open connection (bounded wait)", what, len(c.want)+c.wantErr))
 		c.dead = true
-	} else if c.dead && (len(c.want) > 0 || c.wantErr > 0) && len(c.res.Corrupt) == 0 {
+	} else if len(c.res.Corrupt) == 0 {
 		c.res.Missing = append(c.res.Missing, fmt.Sprintf("%s: connection lost with %d request(s) unanswered", what, len(c.want)+c.wantErr))
 	}
 }
 
-func min(a, b int) int {
-	if a < b {
-		return a
-	}
-	return b
-}
-
-// drain reads whatever arrives within d (notifications).
+// drain handles whatever arrives within d (notifications).
 func (c *wsClient) drain(d time.Duration) {
 	end := time.Now().Add(d)
 	for !c.dead && time.Now().Before(end) {
-		_ = c.conn.SetReadDeadline(end)
-		_, r, err := c.conn.NextReader()
-		if err != nil {
-			if ne, ok := err.(net.Error); ok && ne.Timeout() {
-				// a timed-out read poisons gorilla's reader: this client reads nothing afterwards
-				c.dead = true
-				return
-			}
-			c.dead = true
-			return
+		if msg := c.next(time.Until(end)); msg != nil {
+			c.handle(msg)
 		}
-		msg, err := io.ReadAll(r)
-		if err != nil {
-			c.dead = true
-			return
-		}
-		c.handle(msg)
 	}
 }
 
@@ -889,17 +988,23 @@ func (c *wsClient) subscribe(kind string) {
 	c.res.Requests++
 	c.class("subscribe-" + kind)
 	if c.send(map[string]interface{}{"jsonrpc": "2.0", "id": id, "method": "eth_subscribe", "params": []interface{}{kind}}) {
-		c.await("eth_subscribe "+kind, 0, false)
+		c.await("eth_subscribe " + kind)
 	}
 }
 
-func (c *wsClient) bigRequest(stall time.Duration, slow bool) {
+func (c *wsClient) bigRequest(kib int, stall time.Duration, slow bool) {
 	id := c.id()
-	c.want[id] = fmt.Sprintf("blob:%d", c.plan.RespKiB)
+	c.want[id] = fmt.Sprintf("blob:%d", kib)
 	c.res.Requests++
-	c.class("big-answer-stalled")
-	if c.send(map[string]interface{}{"jsonrpc": "2.0", "id": id, "method": "verif_blob", "params": []interface{}{c.plan.RespKiB}}) {
-		c.await("large answer", stall, slow)
+	c.class("large-answer-stalled")
+	if slow {
+		atomic.StoreInt32(&c.slow, 1)
+	} else {
+		atomic.StoreInt32(&c.slow, 0)
+	}
+	atomic.StoreInt64(&c.stallNs, int64(stall))
+	if c.send(map[string]interface{}{"jsonrpc": "2.0", "id": id, "method": "verif_blob", "params": []interface{}{kib}}) {
+		c.await("large answer")
 	}
 }
 
@@ -909,7 +1014,7 @@ func (c *wsClient) smallRequest() {
 	c.res.Requests++
 	c.class("small-request")
 	if c.send(map[string]interface{}{"jsonrpc": "2.0", "id": id, "method": "verif_small", "params": []interface{}{}}) {
-		c.await("small request", 0, false)
+		c.await("small request")
 	}
 }
 
@@ -917,26 +1022,48 @@ func (c *wsClient) smallRequest() {
 // (socket buffers full), then the client sends a request (it can still write) and resumes reading after the stall.
 func (c *wsClient) floodThenRequest(stall time.Duration) {
 	c.class("notification-in-flight-then-request")
+	atomic.StoreInt32(&c.paused, 1)
 	atomic.AddInt32(&c.node.boost, 1)
-	blocked := waitNotifierInWrite(3 * time.Second)
+	for k := 0; k < 4000 && atomic.LoadInt32(&c.pausedAck) == 0; k++ { // the pump finishes the message it is in, then stops
+		select {
+		case m, ok := <-c.in:
+			if ok {
+				c.handle(m)
+			}
+		case <-time.After(500 * time.Microsecond):
+		}
+	}
+	// the client reads nothing and has no request outstanding: a network write on its connection that has not returned
+	// for 25 ms is a notifier's, stuck on full socket buffers
+	blocked := false
+	me := c.conn.LocalAddr().String()
+	for t0 := time.Now(); atomic.LoadInt32(&c.pausedAck) > 0 && time.Since(t0) < 3*time.Second; time.Sleep(2 * time.Millisecond) {
+		if c.node.writeBlockedFor(me) >= 25*time.Millisecond {
+			blocked = true
+			break
+		}
+	}
 	atomic.AddInt32(&c.node.boost, -1)
 	if !blocked {
 		c.res.Classes["flood-did-not-block"]++
 	} else {
-		c.res.Overlaps++
+		atomic.AddInt32(&c.overlaps, 1)
 	}
 	id := c.id()
 	c.want[id] = "small:verif_small"
 	c.res.Requests++
-	if c.send(map[string]interface{}{"jsonrpc": "2.0", "id": id, "method": "verif_small", "params": []interface{}{}}) {
-		time.Sleep(stall)
-		c.await("request behind a notification in flight", 0, false)
+	ok := c.send(map[string]interface{}{"jsonrpc": "2.0", "id": id, "method": "verif_small", "params": []interface{}{}})
+	time.Sleep(stall)
+	atomic.StoreInt32(&c.paused, 0)
+	if ok {
+		c.await("request behind a notification in flight")
 	}
 }
 
-func (c *wsClient) run(dialMu *sync.Mutex, start <-chan struct{}) {
+// setup: dial and open the first subscription. The connections of a run are set up one after the other so that the
+// k-th connection of the recording is the k-th client.
+func (c *wsClient) setup() {
 	p := c.plan
-	res := c.res
 	d := websocket.Dialer{ReadBufferSize: 1024, WriteBufferSize: 1024, HandshakeTimeout: 5 * time.Second,
 		NetDial: func(network, addr string) (net.Conn, error) {
 			nc, err := net.DialTimeout(network, addr, 5*time.Second)
@@ -945,30 +1072,40 @@ func (c *wsClient) run(dialMu *sync.Mutex, start <-chan struct{}) {
 			}
 			return nc, err
 		}}
-	// connections are set up one after the other (dial + first subscription answered) so that the k-th connection of the
-	// recording is the k-th client
-	dialMu.Lock()
 	conn, _, err := d.Dial("ws://"+c.node.wsAddr+"/", nil)
 	if err != nil {
-		dialMu.Unlock()
-		res.HarnessErrs = append(res.HarnessErrs, "dial: "+err.Error())
+		c.res.HarnessErrs = append(c.res.HarnessErrs, "dial: "+err.Error())
+		c.dead = true
 		return
 	}
 	conn.SetReadLimit(1 << 30)
 	c.conn = conn
+	c.in = make(chan []byte, 4096)
+	c.atAnswer = make(chan struct{})
+	go c.pump()
 	c.subscribe("newHeads")
-	dialMu.Unlock()
-	<-start
+}
+
+func (c *wsClient) script() {
+	if c.conn == nil {
+		return
+	}
+	p, res, conn := c.plan, c.res, c.conn
 	stall := time.Duration(p.StallMs) * time.Millisecond
 	kinds := []string{"logs", "newPendingTransactions"}
-	if p.Mode == "directed" {
+	if p.Mode == "calm" {
+		for r := 0; r < p.Rounds && !c.dead; r++ {
+			c.smallRequest()
+			c.drain(2 * time.Millisecond)
+		}
+	} else if p.Mode == "directed" {
 		for r := 0; r < p.Rounds && !c.dead; r++ {
 			if p.Order == "sub-first" {
 				c.floodThenRequest(stall)
 			} else {
-				c.bigRequest(stall, true)
+				c.bigRequest(p.RespKiB, stall, true)
 			}
-			c.drain(5 * time.Millisecond)
+			c.drain(3 * time.Millisecond)
 		}
 	} else {
 		if c.rng.Intn(2) == 0 {
@@ -977,7 +1114,7 @@ func (c *wsClient) run(dialMu *sync.Mutex, start <-chan struct{}) {
 		for r := 0; r < p.Rounds && !c.dead; r++ {
 			switch op := c.rng.Intn(10); {
 			case op < 3:
-				c.bigRequest(stall/2+time.Duration(c.rng.Int63n(int64(stall)+1)), c.rng.Intn(2) == 0)
+				c.bigRequest(p.RespKiB, stall/2+time.Duration(c.rng.Int63n(int64(stall)+1)), c.rng.Intn(2) == 0)
 			case op == 3:
 				c.smallRequest()
 			case op == 4: // batch: one large and one small answer in one frame
@@ -985,23 +1122,25 @@ func (c *wsClient) run(dialMu *sync.Mutex, start <-chan struct{}) {
 				c.want[id1], c.want[id2] = fmt.Sprintf("blob:%d", p.RespKiB/4+1), "small:verif_small"
 				res.Requests += 2
 				c.class("batch")
+				atomic.StoreInt32(&c.slow, 1)
+				atomic.StoreInt64(&c.stallNs, int64(stall/2))
 				if c.send([]interface{}{map[string]interface{}{"jsonrpc": "2.0", "id": id1, "method": "verif_blob", "params": []interface{}{p.RespKiB/4 + 1}},
 					map[string]interface{}{"jsonrpc": "2.0", "id": id2, "method": "verif_small", "params": []interface{}{}}}) {
-					c.await("batch", stall/2, true)
+					c.await("batch")
 				}
 			case op == 5: // malformed JSON: sendErrResponse
 				c.wantErr++
 				res.Requests++
 				c.class("malformed")
 				if c.sendRaw([]byte(`{"jsonrpc":"2.0","id":1,"method":`)) {
-					c.await("malformed request", 0, false)
+					c.await("malformed request")
 				}
 			case op == 6: // eth_subscribe without parameters: sendErrResponse
 				c.wantErr++
 				res.Requests++
 				c.class("bad-subscribe")
 				if c.send(map[string]interface{}{"jsonrpc": "2.0", "id": c.id(), "method": "eth_subscribe", "params": []interface{}{}}) {
-					c.await("eth_subscribe without parameters", 0, false)
+					c.await("eth_subscribe without parameters")
 				}
 			case op == 7: // unsubscribe one subscription, subscribe again
 				var act []*wsSub
@@ -1020,7 +1159,7 @@ func (c *wsClient) run(dialMu *sync.Mutex, start <-chan struct{}) {
 				res.Requests++
 				c.class("unsubscribe")
 				if c.send(map[string]interface{}{"jsonrpc": "2.0", "id": id, "method": "eth_unsubscribe", "params": []interface{}{s.id}}) {
-					c.await("eth_unsubscribe", 0, false)
+					c.await("eth_unsubscribe")
 					s.active = false
 				}
 				if !c.dead {
@@ -1028,33 +1167,31 @@ func (c *wsClient) run(dialMu *sync.Mutex, start <-chan struct{}) {
 				}
 			case op == 8 && p.SockBuf > 0:
 				c.floodThenRequest(stall)
-			default: // only notifications for a while, read slowly
+			default: // only notifications for a while
 				c.class("listen")
 				c.drain(time.Duration(2+c.rng.Intn(8)) * time.Millisecond)
 			}
 		}
 	}
-	// every subscription still active must have been served while events kept coming
-	if !c.dead {
-		end := time.Now().Add(3 * time.Second)
-		for !c.dead && time.Now().Before(end) {
-			all := true
-			for _, s := range c.subs {
-				if s.active && s.n == 0 {
-					all = false
-				}
-			}
-			if all {
-				break
-			}
-			c.drain(10 * time.Millisecond)
-			if c.dead { // the drain timed out (no frame within 10 ms): dial state unusable, stop here
-				break
+	// every subscription still active must be served while events keep coming
+	end := time.Now().Add(3 * time.Second)
+	for !c.dead && time.Now().Before(end) {
+		all := true
+		for _, s := range c.subs {
+			if s.active && s.n == 0 {
+				all = false
 			}
 		}
+		if all {
+			break
+		}
+		c.drain(10 * time.Millisecond)
+	}
+	if s, _ := c.frameErr.Load().(string); s != "" {
+		c.corrupt("%s", s)
 	}
 	for _, s := range c.subs {
-		if s.active && s.n == 0 && len(res.Corrupt) == 0 && len(res.Missing) == 0 {
+		if !c.dead && s.active && s.n == 0 {
 			res.Silent = append(res.Silent, fmt.Sprintf("%s (%s)", s.kind, s.id))
 		}
 	}
@@ -1063,13 +1200,12 @@ func (c *wsClient) run(dialMu *sync.Mutex, start <-chan struct{}) {
 	}
 	// the client goes away
 	how := c.rng.Intn(3)
-	if p.Mode == "directed" {
+	if p.Mode != "free" {
 		how = 0
 	}
-	conn2 := res.Conn
 	note := func() {
 		if c.node.rec != nil {
-			c.node.rec.note(conn2, "cl_close", nil)
+			c.node.rec.note(res.Conn, "cl_close", nil)
 		}
 	}
 	switch {
@@ -1080,21 +1216,25 @@ func (c *wsClient) run(dialMu *sync.Mutex, start <-chan struct{}) {
 		time.Sleep(time.Duration(c.rng.Intn(3)) * time.Millisecond)
 	case how == 2 && !c.dead:
 		res.Closed = "TCP close in the middle of a large answer"
-		id := c.id()
-		if c.send(map[string]interface{}{"jsonrpc": "2.0", "id": id, "method": "verif_blob", "params": []interface{}{p.RespKiB}}) {
-			_ = conn.SetReadDeadline(time.Now().Add(5 * time.Second))
-			for i := 0; i < 64; i++ {
-				_, r, err := conn.NextReader()
-				if err != nil {
-					break
+		atomic.StoreInt32(&c.stopAtAns, 1)
+		if c.send(map[string]interface{}{"jsonrpc": "2.0", "id": c.id(), "method": "verif_blob", "params": []interface{}{p.RespKiB}}) {
+			t := time.NewTimer(5 * time.Second)
+		wait:
+			for {
+				select {
+				case <-c.atAnswer: // the answer is in flight
+					break wait
+				case m, ok := <-c.in:
+					if !ok {
+						break wait
+					}
+					c.handle(m)
+				case <-t.C:
+					break wait
 				}
-				first := make([]byte, 96)
-				k, _ := io.ReadFull(r, first)
-				if !bytes.Contains(first[:k], []byte(`"method"`)) {
-					break // the answer is in flight
-				}
-				_, _ = io.Copy(io.Discard, r)
 			}
+			t.Stop()
+			time.Sleep(time.Duration(c.rng.Intn(2000)) * time.Microsecond)
 		}
 		note()
 	default:
@@ -1102,6 +1242,12 @@ func (c *wsClient) run(dialMu *sync.Mutex, start <-chan struct{}) {
 		note()
 	}
 	_ = conn.Close()
+	for range c.in { // the pump ends with the connection
+	}
+	if s, _ := c.frameErr.Load().(string); s != "" && how != 2 {
+		c.corrupt("%s", s)
+	}
+	res.Overlaps = int(atomic.LoadInt32(&c.overlaps))
 	for _, s := range c.subs {
 		res.Notifs = append(res.Notifs, s.n)
 		res.Kinds = append(res.Kinds, s.kind)
@@ -1111,7 +1257,7 @@ func (c *wsClient) run(dialMu *sync.Mutex, start <-chan struct{}) {
 	}
 }
 
-// RunWs runs one plan in THIS process and writes ws.json (and wsraw.ndjson when the tree has the ws hooks).
+// RunWs runs one plan in THIS process and writes ws.json (and wsraw.ndjson, empty unless the tree has the ws hooks).
 func RunWs(p *WsPlan) error {
 	if err := os.MkdirAll(p.Out, 0o755); err != nil {
 		return err
@@ -1128,38 +1274,19 @@ func RunWs(p *WsPlan) error {
 	}
 	res := &WsResult{Events: map[string]int{}}
 	clients := make([]*wsClient, p.Conns)
-	var dialMu sync.Mutex
-	var wg sync.WaitGroup
-	start := make(chan struct{})
-	ready := make(chan struct{}, p.Conns)
 	for i := range clients {
-		c := &wsClient{node: node, plan: p, rng: rand.New(rand.NewSource(p.Seed*1000003 + int64(i))), want: map[int64]string{},
+		clients[i] = &wsClient{node: node, plan: p, rng: rand.New(rand.NewSource(p.Seed*1000003 + int64(i))), want: map[int64]string{},
 			res: &WsConnResult{Conn: i + 1, Classes: map[string]int{}}}
-		clients[i] = c
+		clients[i].setup()
 	}
-	// set the connections up in order (see run), then let them all go
+	var wg sync.WaitGroup
 	for _, c := range clients {
 		wg.Add(1)
 		go func(c *wsClient) {
 			defer wg.Done()
-			gate := make(chan struct{})
-			go func() { <-start; close(gate) }()
-			ready <- struct{}{}
-			c.run(&dialMu, gate)
+			c.script()
 		}(c)
-		<-ready
-		// wait until this client holds or has released the dial lock with its first subscription answered
-		for k := 0; k < 2000; k++ {
-			dialMu.Lock()
-			ok := c.conn != nil && (len(c.subs) > 0 || c.dead) || len(c.res.HarnessErrs) > 0
-			dialMu.Unlock()
-			if ok {
-				break
-			}
-			time.Sleep(time.Millisecond)
-		}
 	}
-	close(start)
 	wg.Wait()
 	close(node.stop)
 	<-node.done
@@ -1201,7 +1328,8 @@ func RunWs(p *WsPlan) error {
 	rec.closed = true
 	_ = rec.sink.Close()
 	rec.mu.Unlock()
-	res.Events["newHeads"], res.Events["logs"], res.Events["pending"] = int(node.injected[0]), int(node.injected[1]), int(node.injected[2])
+	res.MuxWaits = int(atomic.LoadInt64(&node.muxWaits))
+	res.Events["newHeads"], res.Events["logs"], res.Events["pending"] = int(atomic.LoadInt64(&node.injected[0])), int(atomic.LoadInt64(&node.injected[1])), int(atomic.LoadInt64(&node.injected[2]))
 	res.WallMs = time.Since(t0).Milliseconds()
 	bz, _ := json.MarshalIndent(res, "", " ")
 	return os.WriteFile(filepath.Join(p.Out, "ws.json"), bz, 0o644)
